@@ -18,8 +18,11 @@ theorem C15_gen_facts :
     ElaVerif.Gen.C15.blocksCacheSizeStore = cacheSize ∧ ElaVerif.Gen.C15.blocksCacheSizeP2P = cacheSize ∧
     ElaVerif.Gen.C15.disconnectCallers =
       [("reorganizeChain", true), ("reorganizeChain2", false)] ∧
-    ElaVerif.Gen.C15.txCacheCallsConnect = ["trim", "setTxn", "deleteTxn"] ∧
-    ElaVerif.Gen.C15.txCacheCallsDisconnect = ["deleteTxn", "deleteTxn"] ∧
+    ElaVerif.Gen.C15.txCacheCallsConnect =
+      [("trim", []), ("setTxn", ["range block.Transactions"]),
+       ("deleteTxn", ["range unspents", "len(value) == 0"])] ∧
+    ElaVerif.Gen.C15.txCacheCallsDisconnect =
+      [("deleteTxn", ["range block.Transactions"]), ("deleteTxn", ["range unspents", "len(value) == 0"])] ∧
     ElaVerif.Gen.C15.txCacheCallsFetch = ["GetTxn"] ∧
     ElaVerif.Gen.C15.blockCacheInvalidations = 0 := by decide
 
@@ -230,6 +233,54 @@ theorem C15_idx_connect (db : IdxDb) (s : Idx) (victims : List Nat) (height : Na
 
 example : (Idx.connect [] ⟨[], 1, 1⟩ [] 5 [(10, 100, true), (11, 101, false)] []).2.fetch
     (Idx.connect [] ⟨[], 1, 1⟩ [] 5 [(10, 100, true), (11, 101, false)] []).1 11 = some (5, 101) := by decide
+
+/-- the real `UnspentIndex.ConnectBlock` (as modelled by `UIdx.connectBlock`: which transactions become
+    fully spent is computed from the unspent bucket) keeps the cache consistent with the tx index -/
+theorem C15_uidx_connect_block (u : UIdx) (victims : List Nat) (height : Nat) (txs : List BTx)
+    (h : IdxInv u.txdb u.cache) (hnew : ∀ t ∈ txs, u.txdb.lookup t.h = none) (hnd : (txs.map (·.h)).Nodup) :
+    IdxInv (u.connectBlock victims height txs).txdb (u.connectBlock victims height txs).cache := by
+  unfold UIdx.connectBlock
+  simp only
+  apply C15_idx_connect _ _ _ _ _ _ h
+  · intro t ht
+    obtain ⟨b, hb, rfl⟩ := List.mem_map.1 ht
+    exact hnew b hb
+  · simpa [List.map_map, Function.comp_def] using hnd
+
+/-- the real `UnspentIndex.DisconnectBlock`: every transaction of the block — with or without
+    outputs — leaves cache and index together -/
+theorem C15_uidx_disconnect_block (u : UIdx) (txs : List BTx) (h : IdxInv u.txdb u.cache) :
+    IdxInv (u.disconnectBlock txs).txdb (u.disconnectBlock txs).cache ∧
+    ∀ t ∈ txs, (u.disconnectBlock txs).cache.txns.lookup t.h = none := by
+  unfold UIdx.disconnectBlock
+  simp only
+  refine ⟨C15_idx_disconnect _ _ _ h, ?_⟩
+  intro t ht
+  unfold Idx.disconnect
+  simp only
+  have key : ∀ (hs : List Nat) (s : Idx) (k : Nat), (k ∈ hs ∨ s.txns.lookup k = none) →
+      (hs.foldl Idx.delete s).txns.lookup k = none := by
+    intro hs
+    induction hs with
+    | nil => intro s k hk; rcases hk with hk | hk; cases hk; exact hk
+    | cons a hs ih =>
+      intro s k hk
+      simp only [List.foldl_cons]
+      apply ih
+      by_cases hka : k = a
+      · right; subst hka; unfold Idx.delete; simp only; rw [lookup_dropKey]; simp
+      · rcases hk with hk | hk
+        · rcases List.mem_cons.1 hk with e | e
+          · exact absurd e hka
+          · exact Or.inl e
+        · right; unfold Idx.delete; simp only; rw [lookup_dropKey]; simp [hka, hk]
+  exact key _ _ _ (Or.inl (List.mem_map.2 ⟨t, ht, rfl⟩))
+
+/-- a transaction without outputs is cached by connect and gone after disconnect -/
+example : let u : UIdx := ⟨[], [], ⟨[], 5, 10000⟩⟩
+    let b : List BTx := [⟨1, 2, true, true, []⟩, ⟨2, 0, true, false, []⟩]
+    ((u.connectBlock [] 7 b).cache.txns.lookup 2 = some (7, 2)) ∧
+    ((u.connectBlock [] 7 b).disconnectBlock b).cache.txns.lookup 2 = none := by decide
 
 /-! ## C. decoded block cache -/
 
